@@ -179,7 +179,7 @@ func cmdApp(args []string) error {
 			if err := json.Unmarshal(raw, &rec.Lines); err != nil {
 				return fmt.Errorf("doc %d: %v", rec.ID, err)
 			}
-			layout(rec.Lines, r)
+			layout(rec.Lines, r, "")
 		}
 		rec.Text = render(rec.Lines)
 		recs = append(recs, rec)
